@@ -14,6 +14,7 @@ import (
 )
 
 type Env struct {
+	callRes  map[string][]Value
 	fr       *Frame
 	st       *State
 	old      *State
@@ -190,6 +191,7 @@ func (e *Env) ident(name string) Value {
 type nilValue struct{}
 
 func (e *Env) eval(x ast.Expr) Value {
+	curBounds = e.st.bnd
 	switch t := x.(type) {
 	case *ast.ParenExpr:
 		return e.eval(t.X)
@@ -266,6 +268,7 @@ func (e *Env) loadPtr(p Ptr) Value {
 func (e *Env) frLoad(p Ptr) Value {
 	// loads in contracts never create obligations
 	st := e.st
+	p = st.canon(p).(Ptr)
 	var elem types.Type
 	if len(p.Path) == 0 {
 		elem = p.Elem
@@ -413,6 +416,25 @@ func (e *Env) eqValues(a, b Value) *Term {
 			return Eq(e.toTerm(as), bs.T)
 		}
 	}
+	// interface vs concrete struct value
+	if ia, ok := a.(Iface); ok {
+		if sb, ok := b.(Struct); ok {
+			if ia.Dyn != nil {
+				if sa, ok := ia.V.(Struct); ok && sb.N != nil && types.Identical(ia.Dyn, sb.N) {
+					return e.st.valueEq(sa, sb)
+				}
+				return False
+			}
+			if sb.N != nil {
+				return And(Eq(ia.Tid, e.st.eng.tidOf(sb.N)), e.st.valueEq(e.st.unbox(ia, sb.N), sb))
+			}
+		}
+	}
+	if _, ok := b.(Iface); ok {
+		if _, ok := a.(Struct); ok {
+			return e.eqValues(b, a)
+		}
+	}
 	// pointer vs struct: compare pointee
 	if p, ok := a.(Ptr); ok {
 		if _, ok := b.(Struct); ok {
@@ -482,7 +504,7 @@ func (e *Env) indexExpr(t *ast.IndexExpr) Value {
 		}
 		return v
 	case MapRef:
-		mo := e.st.mapCell(b)
+		mo := e.st.mapCell(e.st.canon(b).(MapRef))
 		v, _, err := e.st.mapGet(mo, e.eval(t.Index))
 		if err != nil {
 			fail("contract: %v", err)
@@ -539,11 +561,21 @@ func (e *Env) callExpr(t *ast.CallExpr) Value {
 	targ := func(i int) *Term { return e.toTerm(e.eval(t.Args[i])) }
 	switch name {
 	case "implies":
-		return Scalar{Implies(e.evalBool(t.Args[0]), e.evalBool(t.Args[1]))}
+		a := e.evalBool(t.Args[0])
+		if a.IsFalse() {
+			return Scalar{True}
+		}
+		return Scalar{Implies(a, e.evalBool(t.Args[1]))}
 	case "iff":
 		return Scalar{Eq(e.evalBool(t.Args[0]), e.evalBool(t.Args[1]))}
 	case "ite":
 		c := e.evalBool(t.Args[0])
+		if c.IsTrue() {
+			return arg(1)
+		}
+		if c.IsFalse() {
+			return arg(2)
+		}
 		a, b := arg(1), arg(2)
 		if v, ok := iteValue(c, a, b); ok {
 			return v
@@ -592,6 +624,31 @@ func (e *Env) callExpr(t *ast.CallExpr) Value {
 			return Scalar{Forall([]*Term{bv}, Implies(rng, body))}
 		}
 		return Scalar{Exists([]*Term{bv}, And(rng, body))}
+	case "called", "callres":
+		// called("callee#n"), callres("callee#n", i): results of a contract-applied call on this path
+		kv, ok := arg(0).(Scalar)
+		if !ok || !kv.T.IsStr() {
+			fail("contract: %s needs a string literal", name)
+		}
+		cr := e.callRes
+		if cr == nil && e.fr != nil {
+			cr = e.fr.callRes
+		}
+		var hit []Value
+		found := false
+		for k, v := range cr {
+			if strings.HasSuffix(k, kv.T.S) || k == kv.T.S {
+				hit, found = v, true
+			}
+		}
+		if name == "called" {
+			return Scalar{BoolT(found)}
+		}
+		if !found {
+			fail("contract: callres(%s): no such call on this path (guard with called())", kv.T.S)
+		}
+		i := targ(1)
+		return hit[int(i.I.Int64())]
 	case "isT":
 		iv, ok := arg(0).(Iface)
 		if !ok {
